@@ -185,8 +185,13 @@ func runC13(c *Ctx) {
 						if bo, ok := r2.(*ssa.BinOp); ok && bo.Op == token.NEQ {
 							for _, r3 := range refs(bo) {
 								if ifi, ok := r3.(*ssa.If); ok && existsPathFrom(ifi.Block().Succs[0], func(in ssa.Instruction) bool {
-									_, isStore := in.(*ssa.Store)
-									return isStore
+									st, isStore := in.(*ssa.Store)
+									if !isStore {
+										return false
+									}
+									// a store into a local cell (the result cells of a function with a defer) is no effect
+									_, local := st.Addr.(*ssa.Alloc)
+									return !local
 								}, isReturn) == nil {
 									errOK = true
 								}
